@@ -185,13 +185,28 @@ def build_shared_features_map(mod: fx.GraphModule,
     # a layer invoked more than once per forward pass has a single set of output features (one
     # masker) and slices its weights by a single input-features mask: all its call sites belong
     # to the same component, and so do the tensors they are applied to
+    # (the same holds for the inputs of any other layer with per-feature parameters or statistics
+    # - a depthwise convolution, a BatchNorm - invoked more than once)
     call_sites: Dict[str, fx.Node] = {}
     for n in list(sharing_graph.nodes):
         n = cast(fx.Node, n)
-        if n.op == 'call_module' and n.meta['features_defining']:
+        if n.op != 'call_module' or len(n.all_input_nodes) == 0:
+            continue
+        submodule = mod.get_submodule(str(n.target))
+        has_state = next(submodule.parameters(), None) is not None or \
+            next(submodule.buffers(), None) is not None
+        # (a BatchNorm right after a convolution / linear layer is fused into it, each call site
+        # getting its own copy: nothing is shared then)
+        prev = n.all_input_nodes[0]
+        if isinstance(submodule, (nn.BatchNorm1d, nn.BatchNorm2d)) and prev.op == 'call_module' \
+                and isinstance(mod.get_submodule(str(prev.target)),
+                               (nn.Conv1d, nn.Conv2d, nn.Linear)):
+            has_state = False
+        if n.meta['features_defining'] or has_state:
             if str(n.target) in call_sites:
                 first = call_sites[str(n.target)]
-                sharing_graph.add_edge(first, n)
+                if n.meta['features_defining']:
+                    sharing_graph.add_edge(first, n)
                 sharing_graph.add_edge(first.all_input_nodes[0], n.all_input_nodes[0])
             else:
                 call_sites[str(n.target)] = n
